@@ -188,7 +188,7 @@ def grouper_rules(repo, res):
         if len(ifs) == 1 and len(apps) == 1 and len(lp.body) == 2 and not ifs[0].orelse and len(ifs[0].body) == 1:
             t_ = nf(ifs[0].test)
             st_ = ifs[0].body[0]
-            m_ = re.match(r'not\(in\(%s,(\w+)\)\)' % g_, t_)
+            m_ = re.match(r'(?:notin\(|not\(in\()%s,(\w+)\)' % g_, t_)
             if m_ and isinstance(st_, ast.Assign) and SP.nf_stmt(st_) == f'{m_.group(1)}[{g_}] = ' + nf_text(f'len({m_.group(1)}) + 1') \
                     and nf(apps[0].value.args[0]) == f'{m_.group(1)}[{g_}]' \
                     and nf_text(f'np.array({unparse(apps[0].value.func.value, 0)})') in rets:
